@@ -298,8 +298,8 @@ func asTasks(p *plan.Plan, r *plan.Rng) {
 	p.Tasks = true
 	p.Config.SmallMaps = true
 	p.Order = nil
-	if len(p.Sessions) > 8 {
-		p.Sessions = p.Sessions[:8]
+	if len(p.Sessions) > 26 {
+		p.Sessions = p.Sessions[:26]
 	}
 	p.Sched.Seed = r.U64()
 	p.Sched.MaxYields = 4000000
@@ -327,8 +327,11 @@ func asTasks(p *plan.Plan, r *plan.Rng) {
 
 func genC10(p *plan.Plan, r *plan.Rng, tier string) {
 	p.Mode = "sessions"
-	p.Note = "2..8 tasks under the seeded scheduler; cold caches (never-used generated and reflect types); shared FieldQuery / Path"
+	p.Note = "2..8 tasks (thorough: up to 24) under the seeded scheduler; cold caches (never-used generated and reflect types); shared FieldQuery / Path"
 	n := r.Range(2, 8)
+	if tier != "quick" && r.Chance(1, 4) {
+		n = r.Range(9, 24)
+	}
 	next := 0
 	id := func(prefix string) string { next++; return fmt.Sprintf("%s%d", prefix, next) }
 	// types: a few shared by all tasks (first use races), mostly generated ones
